@@ -211,12 +211,16 @@ def importState (_prior : PinMap) (stream : List JPin) (garbage : Bool) : Res ×
   | none => (.err, [])
   | some m => if garbage then (.err, []) else (.ok m, m)
 
-/-- `crdtStateManager.ImportState`: as above, then `BatchingState.Commit`. Committing a batch
-    that holds no operation at all makes go-ds-crdt publish a nil delta, which panics
-    (nil pointer dereference in `addDAGNode`): importing an empty export crashes after the
-    store was cleaned. -/
-def importStateCrdt (prior : PinMap) (stream : List JPin) (garbage : Bool) : Res × PinMap :=
-  if stream.isEmpty && !garbage then (.err, []) else importState prior stream garbage
+/-- `crdtStateManager.ImportState`: as above, then `BatchingState.Commit` — unless no pin at all
+    was added (after 2096d62 `importState` counts them): committing a batch without operations
+    would make go-ds-crdt dereference a nil delta, so the manager returns right after the clean.
+    The result is that of the raft manager for every stream. -/
+def importStateCrdt (_prior : PinMap) (stream : List JPin) (garbage : Bool) : Res × PinMap :=
+  match importInto [] stream with
+  | none => (.err, [])
+  | some m => if garbage then (.err, []) else
+      if stream.isEmpty then (.ok [], [])       -- n = 0: cleaned store, no Commit
+      else (.ok m, m)                           -- Commit
 
 /-! ## 5. Raft data folder and its rotated backups -/
 
